@@ -233,7 +233,7 @@ def label_map(text):
     """line number -> label for lines carrying `// [label]`."""
     m = {}
     for i, line in enumerate(text.splitlines(), 1):
-        mm = re.search(r"//\s*\[([A-Za-z0-9_.:<>/-]+)\]", line)
+        mm = re.search(r"//\s*\[(\S+)\]\s*$", line)
         if mm:
             m[i] = mm.group(1)
     return m
